@@ -494,8 +494,17 @@ def pipe_replay(ctx, rep, pid):
         if u0 is None:
             continue
         hdr = t["hdr"]
+        if pid == "C01" and hdr.get("lb_ref") is not None and (hdr["lb_ref"] != hdr["lb"] or hdr["ub_ref"] != hdr["ub"]):
+            # the run's own internal bounds are no longer the transform of its (normalised) original bounds
+            bad = [i for i in range(len(hdr["lb"])) if hdr["lb"][i] != hdr["lb_ref"][i] or hdr["ub"][i] != hdr["ub_ref"][i]]
+            rep.disagree("Pipe.Env ~ internal hard bounds are the transform of the original bounds",
+                         f"coordinate(s) {bad}: lower_bounds/upper_bounds of the run {hdr['lb']},{hdr['ub']} differ from a fresh transform of the original bounds "
+                         f"{hdr['lb_ref']},{hdr['ub_ref']}; {spec_tag(t['spec'])}", {"kind": "pipe_run", "spec": t["spec"]})
+        # the box the model and the C01 predicates work with is the REFERENCE transform of the original bounds
+        blb = hdr["lb_ref"] if pid == "C01" and hdr.get("lb_ref") is not None else hdr["lb"]
+        bub = hdr["ub_ref"] if pid == "C01" and hdr.get("ub_ref") is not None else hdr["ub"]
         req = {"cmd": "pipe.run",
-               "env": {"lb": [enc(v) for v in hdr["lb"]], "ub": [enc(v) for v in hdr["ub"]], "origLo": [enc(v) for v in hdr["orig_lb"]],
+               "env": {"lb": [enc(v) for v in blb], "ub": [enc(v) for v in bub], "origLo": [enc(v) for v in hdr["orig_lb"]],
                        "origHi": [enc(v) for v in hdr["orig_ub"]], "tol": enc(hdr["tol_mesh"])},
                "u0": enc_pt(u0),
                "steps": [{k: v for k, v in s.items() if not k.startswith("_")} for s in steps],
@@ -775,7 +784,10 @@ def noisy_replay(ctx, rep, pid):
         stats["by_mode"][sp["mode"]] = stats["by_mode"].get(sp["mode"], 0) + 1
         ok = True
         prev_u = x["init"]["u"]
-        for k, (st, ob, it) in enumerate(zip(r["states"], x["obs"], x["iters"])):
+        # the incumbent model transcribes the DEFAULT update policy; runs with options['stobads'] are checked against the property's own
+        # predicates only (what is recorded must have been observed), not against the model
+        default_policy = not t["hdr"]["opts"].get("stobads")
+        for k, (st, ob, it) in enumerate(zip(r["states"], x["obs"], x["iters"]) if default_policy else []):
             stats["iterations"] += 1
             stats["reevals"] += "reVals" in it
             if st["u"] != prev_u:
@@ -790,7 +802,7 @@ def noisy_replay(ctx, rep, pid):
                              f"iteration {k}: model (u,u_best,yval,fval,fsd)={mod} observed {obv}; {tag}", case)
                 ok = False
                 break
-        if ok and t["error"] is None and r["final"] is not None:
+        if ok and default_policy and t["error"] is None and r["final"] is not None:
             f = r["final"]
             stats["final_selects"] += x["final"].get("select") is not None
             fin = t["final"]
@@ -806,7 +818,7 @@ def noisy_replay(ctx, rep, pid):
                     m = float(Fraction(f["mean"]))
                     n = len(yv)
                     sem = (float(Fraction(f["sqdev"])) ** 0.5) / n
-                    if abs(m - fin["fval"]) > 1e-12 * max(1, abs(m)) or abs(sem - fin["fsd"]) > 1e-12 * max(1, abs(sem)):
+                    if not (abs(m - fin["fval"]) <= 1e-12 * max(1, abs(m))) or not (abs(sem - fin["fsd"]) <= 1e-12 * max(1, abs(sem))):
                         rep.disagree("Noisy.meanOf/sqDev ~ final fval/fsd", f"model mean={m} sem={sem} run fval={fin['fval']} fsd={fin['fsd']}; {tag}", case)
         nfs = t["final"].get("nfs")
         stats["nfs"][str(nfs)] = stats["nfs"].get(str(nfs), 0) + 1
@@ -866,7 +878,7 @@ def _c05_predicates(rep, t, x, case, tag):
             rep.violation("yval_vec", "bads.py:final re-sampling", f"yval_vec has {len(yv)} entries for noise_final_samples={nfs}; {tag}", case)
             return
         m = float(np.mean(yv)); sem = float(np.std(yv) / np.sqrt(len(yv)))
-        if abs(res["fval"] - m) > 1e-12 * max(1, abs(m)) or abs(res["fsd"] - sem) > 1e-12 * max(1, abs(sem)):
+        if not (abs(res["fval"] - m) <= 1e-12 * max(1, abs(m))) or not (abs(res["fsd"] - sem) <= 1e-12 * max(1, abs(sem))):
             rep.violation("fval_mean_fsd_sem", "bads.py:final re-sampling", f"fval={res['fval']} fsd={res['fsd']} but mean/SEM of yval_vec = {m}/{sem}; {tag}", case)
         if sp["mode"] == "he":
             ysd = list(np.asarray(fin["ysd_vec"], dtype=float).reshape(-1)) if fin["ysd_vec"] is not None else None
@@ -1156,7 +1168,8 @@ def full_replay(ctx, rep, modes=("det", "auto", "decl", "he")):
     """Every traced run (all noise modes) through Full.step: evaluated points, derived improvements, incumbent estimate, recording index,
     counters and mesh per iteration."""
     traces = [t for t in get_pool(ctx) if t["constructed"] and t["hdr"] is not None and t.get("final") and t["spec"]["mode"] in modes
-              and not t.get("ei_script") and not t.get("es_script") and not t.get("gp_faults") and not t.get("predict_faults") and not t.get("fault")]
+              and not t.get("ei_script") and not t.get("es_script") and not t.get("gp_faults") and not t.get("predict_faults") and not t.get("fault")
+              and not t["hdr"]["opts"].get("stobads")]
     items, skipped = [], {}
     for t in traces:
         d = full_extract(t)
